@@ -217,6 +217,13 @@ def cases(tier, rng, dist, focus=None):
         steps = [rng.choice(["two_sample", "one_sample", "k_sample", "corr", "permute", "pwg", "s2s", "biv", "rows", "two_sample", "shift", "shift"]) for _ in range(rng.randint(2, 4))]
         yield {"f": "seq", "steps": steps, "data": data, "n": n, "reps": rng.randint(1, 3), "gen": rng.choice(["tape", "tape", "sha", "rs"]),
                "seed": rng.randint(0, 10**6), "aseed": rng.randint(0, 10**9), "keep": rng.random() < 0.7}
+    # every ordered pair of different kinds of draw (sign bits, shuffles, Fisher-Yates permutations) on one real generator
+    for gen in ("sha", "rs"):
+        for steps in (["one_sample", "one_sample"], ["one_sample", "two_sample"], ["one_sample", "shift"], ["one_sample", "permute"], ["two_sample", "one_sample"],
+                      ["k_sample", "one_sample"], ["permute", "one_sample", "pwg"], ["corr", "two_sample", "one_sample"], ["s2s", "one_sample", "biv"], ["rows", "shift", "k_sample"]):
+            n = rng.randint(4, 6)
+            yield {"f": "seq", "steps": steps, "data": [rng.randint(-4, 4) for _ in range(2 * n)], "n": n, "reps": rng.randint(2, 3), "gen": gen,
+                   "seed": rng.randint(0, 10**6), "aseed": rng.randint(0, 10**9), "keep": True}
     # long samples: every unit must be reachable by the randomization ("every sign assignment / every allocation equally
     # likely ... all sample sizes"): with 64 repetitions each unit is flipped / allocated to either side at least once
     # except with probability 2^-63 per unit under a uniform generator (real seeds; arguments recorded)
@@ -406,6 +413,14 @@ def run_seq(c):
         out["alone"].append(list(guarded(lambda: seq_call(st, c, gen2, x2, y2, g2, m2))))
     x3, y3, g3, m3 = fresh_data()
     out["first_fresh"] = list(guarded(lambda: seq_call(c["steps"][0], c, mk(), x3, y3, g3, m3)))
+    if c["gen"] == "sha":
+        # the same sequence through a logging subclass that forwards every primitive request to a real SHA256 in the same
+        # starting state: a plain SHA256 instance must be used through its public primitives only, call after call
+        from .tape import RefTape
+        gen5 = RefTape(SHA256(c["seed"])); out["via_proxy"] = []
+        for st in c["steps"]:
+            x5, y5, g5, m5 = fresh_data()
+            out["via_proxy"].append(list(guarded(lambda: seq_call(st, c, gen5, x5, y5, g5, m5))))
     # two equal consecutive calls must NOT repeat each other's randomization when the design has more than one arrangement
     if len(c["steps"]) >= 2 and c["steps"][0] == c["steps"][1] and c["steps"][0] in ("permute", "pwg", "rows"):
         gen4 = mk(); xs = np.arange(40.0); gs = np.array([i % 2 for i in range(40)]); ms = np.arange(80).reshape(2, 40)
@@ -434,6 +449,9 @@ def oracle_seq(c, o):
     for k, (r, a) in enumerate(zip(o["seq"], o["alone"])):
         if a[0] != "ok" or not same_result(r[1], a[1]):
             return {"why": f"sequence {c['steps']} on one {c['gen']} generator: call {k} returned {str(r[1])[:160]}, a second generator in the same starting state gives {str(a[1:])[:160]}", "cls": "sequence:irreproducible"}
+    for k, (r, a) in enumerate(zip(o["seq"], o.get("via_proxy", []))):
+        if a[0] != "ok" or not same_result(r[1], a[1]):
+            return {"why": f"sequence {c['steps']} on one plain SHA256({c['seed']}) instance: call {k} returned {str(r[1])[:160]}; the same calls through a subclass that forwards every request to a SHA256 in the same state give {str(a[1:])[:160]}: the instance is not used through its primitives alone (or carries hidden state from the previous call)", "cls": "sequence:irreproducible"}
     ff = o["first_fresh"]
     if ff[0] != "ok" or not same_result(ff[1], o["seq"][0][1]):
         return {"why": f"first call ({c['steps'][0]}) with a fresh {c['gen']} generator differs from the same call at the head of a sequence", "cls": "sequence:irreproducible"}
